@@ -12,6 +12,7 @@ package main
 //     message structs are plain Go values and keep working.
 
 import (
+	"go/types"
 	"strings"
 
 	"golang.org/x/tools/go/ssa"
@@ -43,6 +44,49 @@ func init() {
 			return x.applyUF("pbkdf2", n, in)
 		}
 
+		// context.WithValue checks reflectlite.TypeOf(key).Comparable(); build the valueCtx directly
+		// (keys used by the code under test are comparable struct / pointer keys).
+		if cp := e.pkgs["context"]; cp != nil && cp.Type("valueCtx") != nil {
+			vt := types.NewPointer(cp.Type("valueCtx").Type())
+			e.natives["context.WithValue"] = func(x *Exec, fr *frame, a []Value) Value {
+				if parent, ok := a[0].(Iface); !ok || parent.t == nil {
+					x.tpanic("cannot create context from nil parent")
+				}
+				if key, ok := a[1].(Iface); !ok || key.t == nil {
+					x.tpanic("nil key")
+				}
+				var cell Value = Struct{a[0], a[1], a[2]}
+				return Iface{t: vt, v: &cell}
+			}
+		}
+
+		// package net is not initialised (initSkipped); net.IP.Equal / To4 need v4InV6Prefix.
+		prevNetHook := e.pkgInitHook["net"]
+		e.pkgInitHook["net"] = func(x *Exec, pkg *ssa.Package) {
+			if prevNetHook != nil {
+				prevNetHook(x, pkg)
+			}
+			if g := pkg.Var("v4InV6Prefix"); g != nil {
+				pre := make([]Value, 12)
+				for i := range pre {
+					pre[i] = uint64(0)
+				}
+				pre[10], pre[11] = uint64(0xff), uint64(0xff)
+				*x.globals[g] = pre
+			}
+		}
+
+		// Text forms of addresses with symbolic bytes only ever feed error / log messages here; a
+		// concrete address is formatted by the real code.
+		symAddrString := func(x *Exec, fr *frame, a []Value) Value {
+			if hasSymbolic(a[0]) {
+				return "<symbolic-address>"
+			}
+			return declineNative
+		}
+		e.natives["(net/netip.Addr).String"] = symAddrString
+		e.natives["(net.IP).String"] = symAddrString
+
 		for path, p := range e.pkgs {
 			if !strings.HasPrefix(path, "github.com/scionproto/scion/pkg/proto/") {
 				continue
@@ -54,4 +98,34 @@ func init() {
 			}
 		}
 	})
+}
+
+// hasSymbolic reports whether a scalar / aggregate value contains a solver term (pointers are not
+// followed, except the backing elements of slices).
+func hasSymbolic(v Value) bool {
+	switch v := v.(type) {
+	case *Term, *SymStr:
+		return true
+	case Struct:
+		for _, f := range v {
+			if hasSymbolic(f) {
+				return true
+			}
+		}
+	case Array:
+		for _, f := range v {
+			if hasSymbolic(f) {
+				return true
+			}
+		}
+	case []Value:
+		for _, f := range v {
+			if hasSymbolic(f) {
+				return true
+			}
+		}
+	case Iface:
+		return v.t != nil && hasSymbolic(v.v)
+	}
+	return false
 }
